@@ -339,6 +339,9 @@ impl<'a> G<'a> {
                         "\"", "\\", "\\u0000", "e30", "W10", "eyJhbGciOiJub25lIn0", "a~b", "a.b.c", "=",
                         // JSON text that, if parsed, would contain reserved member names
                         "19\" rack, part 2e4", "27\" 7f3e8a21", "1e5\"2e4\"3E-2", "EC", "OKP",
+                        // (runs of '?', '>' and '~': one of three consecutive ones ends a 3-octet group, so the
+                        // disclosure's base64url text contains '_' or '-')
+                        "why not???", "a>>>b", "~~~", "/~erika/public???", "https://example.com/a?x=1&y=???", ">?~>?~",
                         "{\"_sd\":[\"abc\"]}", "[{\"...\":\"x\"}]", "{\"...\":1,\"_sd_alg\":\"md5\"}", "[\"s\",\"_sd\",1]", "12345", "-7", "1e5",
                     ]))
                     .to_string())
@@ -412,6 +415,7 @@ impl<'a> G<'a> {
             m.insert(name, v);
         }
         self.prefix_sibling(&mut m);
+        self.escaped_twin(&mut m);
         self.lookalike_sibling(&mut m);
         self.child_named_like_parent(&mut m);
         Value::Object(m)
@@ -490,6 +494,39 @@ impl<'a> G<'a> {
         if !excluded && !m.contains_key(&name) && !k.is_empty() && !c.is_empty() {
             let v = if self.r.chance(50) { cv } else { self.leaf() };
             m.insert(name, v);
+        }
+    }
+
+    /// Occasionally two CONSECUTIVE members of which the second is named like the escaped spelling of the
+    /// first ("col<TAB>A" then the seven characters col\tA; "straße" then stra\u00dfe; a quote, a backslash):
+    /// distinct names; a cache keyed by escaped text, or escaping applied twice, would confuse them.
+    fn escaped_twin(&mut self, m: &mut Map<String, Value>) {
+        if self.cfg.safe_names || !self.r.chance(4) {
+            return;
+        }
+        let first = (*self.r.pick(&["col\tA", "q\"uote", "back\\slash", "line\nbreak", "stra\u{df}e", "\u{1f600}k", "nul\u{0}", "a/b\u{7f}"])).to_string();
+        let body = |s: &str| -> String {
+            let j = serde_json::to_string(s).unwrap_or_default();
+            j[1..j.len().saturating_sub(1)].to_string()
+        };
+        let mut twin = body(&first);
+        if twin == first {
+            // (non-ASCII is not escaped by serde_json: spell the \uXXXX form by hand)
+            twin = first.chars().flat_map(|c| if c.is_ascii() { vec![c] } else { let mut b = [0u16; 2]; c.encode_utf16(&mut b).iter().flat_map(|u| format!("\\u{u:04x}").chars().collect::<Vec<_>>()).collect() }).collect();
+        }
+        if m.contains_key(&first) || m.contains_key(&twin) || twin == first {
+            return;
+        }
+        let (a, b) = (self.leaf(), self.leaf());
+        m.insert(first, a);
+        m.insert(twin.clone(), b);
+        if self.r.chance(30) {
+            // ... and the twin's own escaped spelling right behind it
+            let third = body(&twin);
+            if third != twin && !m.contains_key(&third) {
+                let c = self.leaf();
+                m.insert(third, c);
+            }
         }
     }
 
